@@ -39,6 +39,8 @@ type Batch struct {
 	Cases   map[string][]string              // pkg -> case names in source order
 	// Multi counts every value printed for a case over all runs (C03: outcome sets)
 	Multi map[string]map[string]map[string]int
+	// Elapsed: shortest native running time (ns) observed for a case
+	Elapsed map[string]map[string]int64
 }
 
 const canonSrc = `//go:build !goose
@@ -53,6 +55,7 @@ import (
 	"sort"
 	"strconv"
 	"strings"
+	"time"
 )
 
 func repeat() int {
@@ -152,7 +155,9 @@ func emit1(pkg, name string, f func() []interface{}) {
 				panicked = true
 			}
 		}()
+		t0 := time.Now()
 		res = f()
+		fmt.Printf("#T\t%s\t%s\t%d\n", pkg, name, time.Since(t0).Nanoseconds())
 	}()
 	if panicked {
 		fmt.Printf("%s\t%s\tPANIC\t\n", pkg, name)
@@ -219,7 +224,7 @@ func caseFuncs(src string, prefixes []string) (names []string, arity map[string]
 
 // Write lays the batch module out on disk.
 func Write(dir string, pkgs []*Pkg, casePrefixes []string) (*Batch, error) {
-	b := &Batch{Dir: dir, Pkgs: pkgs, Results: map[string]map[string]CaseResult{}, Cases: map[string][]string{}, Multi: map[string]map[string]map[string]int{}}
+	b := &Batch{Dir: dir, Pkgs: pkgs, Results: map[string]map[string]CaseResult{}, Cases: map[string][]string{}, Multi: map[string]map[string]map[string]int{}, Elapsed: map[string]map[string]int64{}}
 	gomod := fmt.Sprintf("module %s\n\ngo 1.22\n\nrequire github.com/goose-lang/goose v0.0.0\n\nreplace github.com/goose-lang/goose => %s\n", ModPath, core.RepoDir)
 	if err := core.WriteFile(filepath.Join(dir, "go.mod"), gomod); err != nil {
 		return nil, err
@@ -368,6 +373,18 @@ func (b *Batch) parse(out string) {
 	for _, line := range strings.Split(out, "\n") {
 		f := strings.SplitN(line, "\t", 4)
 		if len(f) != 4 {
+			continue
+		}
+		if f[0] == "#T" {
+			// native running time of one case (nanoseconds): a hint for the model's step budget only
+			var ns int64
+			fmt.Sscanf(f[3], "%d", &ns)
+			if b.Elapsed[f[1]] == nil {
+				b.Elapsed[f[1]] = map[string]int64{}
+			}
+			if old, ok := b.Elapsed[f[1]][f[2]]; !ok || ns < old {
+				b.Elapsed[f[1]][f[2]] = ns
+			}
 			continue
 		}
 		m := b.Results[f[0]]
